@@ -19,7 +19,10 @@ RULE = ("case = (m npre npost (l0 l1 .. ln)): a real tachys keyed(..) view whose
         "randomly relabelled pairs, random pairs of length <= 12 over 16 keys and histories of 3-8 successive updates "
         "(all from the PRNG seeded by VERIF_SEED); and modes 11/12: the real leptos <For> / <ForEnumerate> mounted with "
         "mount_to_renderer, rows creating an RwSignal (rendered as text), a StoredValue and an on_cleanup inside the "
-        "children closure, histories of 2-7 lists, every rendered row's signal written after every update; mode 14: the "
+        "children closure, histories of 2-7 lists, every rendered row's signal written after every update; mode 13 "
+        "(oracle only): NESTED leptos <For>: the outer row of key k is an inner <For> over the row's own signal "
+        "(+ a trailing <li> for odd k), outer histories of 2-6 lists, between two outer updates every rendered row's inner "
+        "list is replaced (a key-dependent rotation / truncation of a random base list of <= 4 inner keys); mode 14: the "
         "real leptos <For each=move || store.group().rows() key=|row| row.id().get()> over a KEYED FIELD of a "
         "#[derive(Store)] struct (#[store(key: i64 = |r| r.id)] rows: Vec<Row>, one level below the root), i.e. "
         "reactive_stores' KeyedSubfield::into_iter / AtKeyed rows, every row rendering the label of ITS item through its "
@@ -51,6 +54,11 @@ TRUSTED = [
     "behave like that node list: mount = each node in order before the anchor, insert_before_this = before the row's "
     "first node (tachys asks only the FIRST row of an inner keyed list, so this needs every sub-view to own a node); "
     "the flattening of a shape into nodes (shape_nodes in Dom/KeyedRun.v) is re-implemented in the oracle",
+    "`h_dom c11` mode 13 (nested leptos <For>, inner lists changing between outer updates; the rows are "
+    "OwnedViewState / RenderEffect states around KeyedState, tachys/src/reactive_graph): NOT modelled (an item whose "
+    "node list changes between updates is outside Keyed.v's item = fixed node list; each of the lists separately is an "
+    "instance of the theorems with the other list's nodes as siblings) - judged by the model-independent oracle only "
+    "(order after every outer and inner update, node identity, build / cleanup counts)",
     "`h_dom c11` mode 14 (src/c11store.rs): leptos::For over reactive_stores' KeyedSubfield / AtKeyed (#[derive(Store)], "
     "Store::new, write guards of the field / parent / root, set, update) + mount_to_renderer + hand-polled executor; the "
     "model answers what mode 11 answers (order = the new key order by Keyed.v, label shown = entries since the row was "
@@ -246,6 +254,17 @@ def generate(rng, tier):
         for _ in range(rng.randint(1, 6)):
             ls.append(mutate(rng, ls[-1], nk) if rng.random() < 0.8 else rand_list(rng, 6, nk))
         yield dict(case=C.norm([mode, npre, npost, ls]), kind="leptos-For" if mode == 11 else "leptos-ForEnumerate")
+    # nested <For>: rows that are an inner <For> over their own signal (+ a trailing <li> for odd keys); oracle only
+    for i in range(2000 if tier == "quick" else 20000):
+        npre, npost = rng.choice([(0, 0), (1, 1), (0, 1), (2, 0)])
+        nk = rng.choice([3, 5, 8])
+        ls = [rand_list(rng, 5, nk)]
+        for _ in range(rng.randint(1, 5)):
+            ls.append(mutate(rng, ls[-1], nk) if rng.random() < 0.8 else rand_list(rng, 5, nk))
+        bases = [[10 + x for x in rand_list(rng, 4, 5)]]
+        for _ in ls[1:]:
+            bases.append([10 + x for x in (mutate(rng, [y - 10 for y in bases[-1]], 5) if rng.random() < 0.7 else rand_list(rng, 4, 5))])
+        yield dict(case=C.norm([13, npre, npost, ls, bases]), kind="leptos-nested-For (oracle only)", compare=False)
     # <For> over a keyed field of a reactive store, writes through the field, its parent and the root
     for i in range(2500 if tier == "quick" else 25000):
         npre, npost = rng.choice([(0, 0), (1, 1), (0, 1), (2, 0)])
@@ -288,14 +307,17 @@ def valid_case(item):
     if not (isinstance(c, list) and len(c) in (4, 5) and all(isinstance(x, int) for x in c[:3]) and isinstance(c[3], list)):
         return False
     m, npre, npost, ls = c[:4]
-    if (len(c) == 5) != (m in (14, 20)):
+    if (len(c) == 5) != (m in (13, 14, 20)):
+        return False
+    if m == 13 and not (isinstance(c[4], list) and len(c[4]) <= 10 and all(
+            isinstance(l, list) and all(isinstance(k, int) and k >= 0 for k in l) and len(set(l)) == len(l) for l in c[4])):
         return False
     if m == 14 and not (isinstance(c[4], list) and len(c[4]) <= 10      # a missing op is 0
                         and all(isinstance(o, int) and 0 <= o % 10 <= 5 and 0 <= o // 10 <= 2 for o in c[4])):
         return False
     if m == 20 and not (isinstance(c[4], list) and 1 <= len(c[4]) <= 4 and all(valid_shape(x) for x in c[4])):
         return False
-    if m not in (1, 2, 3, 11, 12, 14, 20) or not (0 <= npre <= 4) or not (0 <= npost <= 4) or not ls:
+    if m not in (1, 2, 3, 11, 12, 13, 14, 20) or not (0 <= npre <= 4) or not (0 <= npost <= 4) or not ls:
         return False
     for l in ls:
         if not isinstance(l, list) or any((not isinstance(k, int)) or k < 0 for k in l) or len(set(l)) != len(l):
@@ -441,8 +463,70 @@ def check_for(mode, npre, npost, ls, impl):
     return None
 
 
+def pick(base, k):
+    """the inner list of outer row k for the base list `base` (mode 13, see harness/dom/src/c11for.rs)"""
+    r = k % (len(base) + 1)
+    v = base[r:] + base[:r]
+    return v[:-1] if k % 3 == 2 else v
+
+
+def check_nested(npre, npost, ls, bases, impl):
+    """nested <For> (mode 13): after every outer update and after every round of inner updates the parent's
+    non-comment children are, in order, the siblings and for each outer key its inner rows in the inner key order
+    (+ the trailing <li> of odd keys); rows (outer and inner) present before and after keep their DOM node, others are
+    new nodes; outer rows are built once / cleaned up once, a retained outer row's state is alive"""
+    prev = []               # labels of the non-comment children in the previous snapshot
+    gens = {}               # outer key -> gen
+    for s, (to, entry) in enumerate(zip(ls, impl)):
+        if len(entry) != 4:
+            return "update %d: panic" % s
+        a, log, flags, b = entry
+        builds = {}
+        for e in log:
+            if e[0] == 3:
+                builds.setdefault(e[1], []).append(e[2])
+        cleans = sorted((e[1], e[2]) for e in log if e[0] == 4)
+        new = [k for k in to if k not in gens]
+        if sorted(builds) != sorted(new) or any(len(v) != 1 for v in builds.values()):
+            return "update %d: outer children closure called for %r, new keys are %r" % (s, sorted(builds.items()), new)
+        gone = sorted((k, g) for k, g in gens.items() if k not in to)
+        if cleans != gone:
+            return "update %d: cleanups ran for outer rows %r, removed rows are %r" % (s, cleans, gone)
+        gens = {k: (gens[k] if k in gens else builds[k][0]) for k in to}
+        for f in flags:
+            if f[1] != gens.get(f[0]) or f[2] or f[3]:
+                return "update %d: the inner signal / stored value of rendered outer row %d is disposed (or the row was rebuilt)" % (s, f[0])
+        old_base = bases[s - 1] if 0 < s <= len(bases) else []
+        new_base = bases[s] if s < len(bases) else []
+        for name, rows, base in (("after the outer update", a, old_base), ("after the inner updates", b, new_base)):
+            want = [(-1, 0, i) for i in range(npre)]
+            for k in to:
+                want += [(k, gens[k], i) for i in pick(base, k)]
+                if k % 2 == 1:
+                    want.append((k, gens[k], -1))
+            want += [(-2, 0, j) for j in range(npost)]
+            got = [tuple(r[:3]) for r in rows]
+            if got != want:
+                return "update %d %s: children are (key gen inner-key) %r, expected %r" % (s, name, got, want)
+            for idx, r in enumerate(rows):
+                lab = tuple(r[:3])
+                if lab in prev:
+                    if r[3] != prev.index(lab):
+                        return "update %d %s: %r did not keep its DOM node" % (s, name, lab)
+                elif r[3] != -1:
+                    return "update %d %s: new row %r re-uses an old node" % (s, name, lab)
+            prev = got
+    return None
+
+
 def oracle(item, impl):
     m, npre, npost, ls = item["case"][:4]
+    if m == 13:
+        if isinstance(impl, str):
+            return "panic / harness error: " + impl
+        if len(impl) != len(ls):
+            return "harness returned %d entries for %d lists" % (len(impl), len(ls))
+        return check_nested(npre, npost, ls, item["case"][4], impl)
     if m == 20:
         shapes = [[j for j, v in enumerate(flatten(s)) if v] for s in item["case"][4]]
         js_of = lambda k: shapes[k % len(shapes)]
@@ -498,6 +582,11 @@ def describe(item):
         sh = item["case"][4]
         return "keyed list whose row for key k is shape[k mod %d] of {%s}, %d leading / %d following siblings: %s" % (
             len(sh), " ; ".join(show_shape(x) for x in sh), npre, npost, " -> ".join(str(l) for l in ls))
+    if m == 13:
+        bases = item["case"][4]
+        return ("leptos nested <For> (outer row k = inner <For> over pick(base, k)%s), %d leading / %d following siblings: outer "
+                "keys %s; base lists of the inner rows %s" % (" + <li> for odd k", npre, npost, " -> ".join(str(l) for l in ls),
+                                                             " -> ".join(str(l) for l in bases)))
     if m == 14:
         via = ["rows().write()", "group().write().rows", "store.write().group.rows", "store.set(..)", "rows().set(..)",
                "group().update(..)"]
